@@ -1,6 +1,7 @@
 package cache
 
 import (
+	"context"
 	"errors"
 	"fmt"
 	"runtime"
@@ -275,7 +276,17 @@ func (s *caSys) checkTTL(key string, base time.Duration) {
 
 func (s *caSys) del(keys ...string) {
 	// group by node as the cluster does (a key that is not cached anywhere still gets its DEL)
-	err := s.c.Del(keys...)
+	// deletes naming k1 use the context form with a request-scoped context that ends as soon
+	// as the call has returned (as an HTTP or RPC request's does): what happens in the
+	// background afterwards must not depend on it; the others use the plain form
+	var err error
+	if keys[0] != "k1" {
+		err = s.c.Del(keys...)
+	} else {
+		ctx, cancel := context.WithCancel(context.Background())
+		err = s.c.DelCtx(ctx, keys...)
+		cancel()
+	}
 	if err != nil {
 		s.r.Failf("Del(%v) returned %v (failures are retried in the background, not reported)", keys, err)
 	}
